@@ -363,8 +363,10 @@ def known_index(prop: str):
 
 
 TIERS = {
-    "quick": {"budget_s": 50, "max_runs": 100_000, "chunk": 2},
-    "thorough": {"budget_s": 900, "max_runs": 5_000_000, "chunk": 8},
+    # a time budget, but never fewer than min_runs runs (a loaded machine gets more time, up to hard_cap_s): two seeded
+    # changes were missed only when a quick batch got a third of its usual runs because other jobs shared the cores
+    "quick": {"budget_s": 50, "max_runs": 100_000, "chunk": 2, "min_runs": 400, "hard_cap_s": 150},
+    "thorough": {"budget_s": 900, "max_runs": 5_000_000, "chunk": 8, "min_runs": 4000, "hard_cap_s": 2700},
 }
 
 
@@ -399,6 +401,7 @@ def batch(prop: str, tier: str, base_seed: int, budget_s=None, max_runs=None, wo
     tcfg = dict(TIERS[tier])
     if budget_s is not None:
         tcfg["budget_s"] = budget_s
+        tcfg["min_runs"] = 0  # an explicit budget is taken literally
     if max_runs is not None:
         tcfg["max_runs"] = max_runs
     workers = workers or int(os.environ.get("VERIF_WORKERS", "16"))
@@ -474,7 +477,9 @@ def batch(prop: str, tier: str, base_seed: int, budget_s=None, max_runs=None, wo
                         known_seen[ident] = known_seen.get(ident, 0) + 1
                     elif ident not in viols:
                         viols[ident] = r
-            if time.time() - t0 < tcfg["budget_s"] and not errors and len(viols) < 4:
+            el = time.time() - t0
+            more = el < tcfg["budget_s"] or (evaluations + len(pending) * chunk < tcfg.get("min_runs", 0) and el < tcfg.get("hard_cap_s", 0))
+            if more and not errors and len(viols) < 4:
                 submit()
         wall_explore = time.time() - t0
 
